@@ -404,7 +404,14 @@ def c06_cases(rng, tier):
         cases.append("decpred " + hx(raw))
         cases.append("decode " + hx(raw))
         cases.append("mapped " + hx(raw))
-    return cases, []
+    # predicates with more nodes than a u16 can index (no decoder produces them, a caller that skipped predicate::check can):
+    # built inside the harness, every entry point, implementation only (the model's graph code is quadratic in the node count)
+    oracles = []
+    for shape in ("65536 leaves 0", "65537 leaves 0", "70000 fan 5", "65537 tailfan 5", "65540 tailfan 65535", "131073 leaves 0"):
+        for entry in ("twopass x", "csp 01", "cp 0", "cac 1"):
+            if tier != "quick" or rng.random() < 0.5 or shape == "65537 leaves 0":
+                oracles.append(f"o_big {shape} {entry}")
+    return cases, oracles
 
 
 # ---------------------------------------------------------------------------------------
@@ -1105,6 +1112,17 @@ def c01_cases(rng, tier):
             case = check_case("twopass", ca, [(ADDR_A, ADDR_B, [], [])], [(ADDR_A, ADDR_B, (nodes, edges))], [pc, pr], [])
             cases.append(case)
             oracles.append("o_ref " + expect_tok("invalid") + " " + case)
+    # long-running but successful programs (implementation only): the check gives a program no gas budget of its own, so a
+    # leaf that loops for a long time and ends with [1] is accepted (a parent doing the same hands its stack on)
+    for iters in ((1 << 16, 3_000_000) if tier == "quick" else (1 << 16, 3_000_000, 30_000_000, 90_000_000, 400_000_000)):
+        loop = [P(iters), P(1), op("REP"), P(0), op("POP"), op("REPE")]
+        pred, pbytes = build_pred(encode_valid([[]]), [loop + [P(1)]])
+        case = check_case("twopass", False, [(ADDR_A, ADDR_B, [], [])], [(ADDR_A, ADDR_B, pred)], pbytes, [])
+        oracles.append("o_ref " + expect_tok("ok []") + " " + case)
+        if iters <= 30_000_000:
+            pred, pbytes = build_pred(encode_valid([[1], []]), [loop + [P(1)], [P(1), op("EQ")]])
+            case = check_case("twopass", False, [(ADDR_A, ADDR_B, [], [])], [(ADDR_A, ADDR_B, pred)], pbytes, [])
+            oracles.append("o_ref " + expect_tok("ok []") + " " + case)
     return cases, oracles
 
 
